@@ -1263,7 +1263,7 @@ impl<T> Router<T> {
     // a rule with a fresh id becomes live; nothing else changes
     //@@ fn src/router/mod.rs :: impl <T>Router<T> / fn insert_route
     //@| requires old(self).wf(), old(self).matcher.cnt() < usize::MAX, forall|x: RouteRef<T>| old(self).live(x) ==> rid(*x) != rid(route),
-    //@| ensures final(self).wf(), exists|n: RouteRef<T>| *n == route && #[trigger] live_plus(*old(self), *final(self), n),
+    //@| ensures final(self).wf(), final(self).config == old(self).config, final(self).matcher.cnt() == old(self).matcher.cnt() + 1, exists|n: RouteRef<T>| *n == route && #[trigger] live_plus(*old(self), *final(self), n),
     //@|     final(self).routes@.len() == old(self).routes@.len() + 1,
     //@| entry broadcast use group_hash_axioms; broadcast use axiom_string_key_model; broadcast use axiom_arc_cloned;
     //@|     let ghost r0 = self.routes@; proof { axiom_string_ext(); lemma_router_uniq(*self); }
@@ -1307,7 +1307,7 @@ impl<T> Router<T> {
     // batch removal: exactly the rules whose id is in the set stop being live
     //@@ fn src/router/mod.rs :: impl <T>Router<T> / fn batch_remove
     //@| requires old(self).wf(),
-    //@| ensures final(self).wf(), forall|y: RouteRef<T>| #![trigger final(self).live(y)] final(self).live(y) <==> old(self).live(y) && !ids_has(ids@, rid(*y)),
+    //@| ensures final(self).wf(), final(self).config == old(self).config, final(self).matcher.cnt() == old(self).matcher.cnt(), forall|y: RouteRef<T>| #![trigger final(self).live(y)] final(self).live(y) <==> old(self).live(y) && !ids_has(ids@, rid(*y)),
     //@| closure `|id, _|` => `|id: &String, _v: &mut Arc<Route<T>>| -> (b: bool) ensures b == !ids@.contains(*id), *final(_v) == *old(_v)`
     //@| entry broadcast use group_hash_axioms; broadcast use axiom_string_key_model;
     //@|     let ghost r0 = self.routes@; proof { axiom_string_ext(); lemma_router_uniq(*self); }
@@ -1338,6 +1338,123 @@ impl<T> Router<T> {
     //@@ fn src/router/mod.rs :: impl <T>Router<T> / fn is_empty -> r
     //@| ensures r == (self.routes@.len() == 0),
     //@| entry broadcast use group_hash_axioms; broadcast use axiom_string_key_model;
+}
+
+// ---- change sets (Router::insert, Router::apply_change_set). `IntoRoute` is the crate's trait; here with a specification function
+// naming the route an item converts to (the conversion itself, e.g. api::Rule::into_route, is not under contract)
+pub trait IntoRoute<T>: Sized {
+    spec fn spec_route(self, config: RouterConfig) -> Route<T>;
+    fn into_route(self, config: &RouterConfig) -> (r: Route<T>) ensures r == self.spec_route(*config);
+}
+pub open spec fn routes_of<T: IntoRoute<T>>(items: Seq<T>, config: RouterConfig) -> Seq<Route<T>> { Seq::new(items.len(), |i: int| items[i].spec_route(config)) }
+pub open spec fn in_ids<T>(rs: Seq<Route<T>>, id: Seq<char>) -> bool { exists|i: int| 0 <= i < rs.len() && rid(#[trigger] rs[i]) == id }
+// R8 outlines, ASSUMED contracts (iterator adaptors with closures are outside the subset):
+#[verifier::external_body]
+pub fn outl_into_routes<T: IntoRoute<T>>(updated: Vec<T>, config: &RouterConfig) -> (r: Vec<Route<T>>)
+    ensures r@ == routes_of(updated@, *config),
+{ /* verbatim: updated .into_iter() .map(|item| item.into_route(self.config.as_ref())) .collect::<Vec<Route<T>>>() */ unimplemented!() }
+#[verifier::external_body]
+pub fn outl_extend_ids<T>(removed: &mut HashSet<String>, routes: &Vec<Route<T>>)
+    ensures forall|k: String| #[trigger] final(removed)@.contains(k) <==> old(removed)@.contains(k) || in_ids(routes@, k@),
+{ /* verbatim: removed.extend(updated_route.iter().map(|item| item.id().to_string())); */ unimplemented!() }
+#[verifier::external_body]
+pub fn outl_arc_config<'a>(c: &'a Arc<RouterConfig>) -> (r: &'a RouterConfig) ensures *r == **c { /* verbatim: self.config.as_ref() */ c.as_ref() }
+pub open spec fn cfg_of(c: Arc<RouterConfig>) -> RouterConfig { *c }
+pub open spec fn cs_routes<T: IntoRoute<T>>(updated: Seq<T>, added: Seq<T>, config: RouterConfig) -> Seq<Route<T>> { routes_of(updated, config) + routes_of(added, config) }
+// ids deleted by a change set: the explicit removals plus the ids of the updated rules
+pub open spec fn cs_gone<T: IntoRoute<T>>(removed: Set<String>, updated: Seq<T>, config: RouterConfig, id: Seq<char>) -> bool {
+    ids_has(removed, id) || in_ids(routes_of(updated, config), id)
+}
+// ASSUMED (trusted, listed): every sequence of characters is the content of some String
+#[verifier::external_body] pub proof fn axiom_string_exists(s: Seq<char>) ensures exists|k: String| k@ == s {}
+// the rules that survive the removal phase of a change set
+pub open spec fn survives<T: IntoRoute<T>>(o: Router<T>, removed: Set<String>, updated: Seq<T>, y: RouteRef<T>) -> bool { o.live(y) && !cs_gone(removed, updated, *o.config, rid(*y)) }
+impl<T: IntoRoute<T>> Router<T> {
+    //@@ fn src/router/mod.rs :: impl <T>Router<T> where T: IntoRoute<T>, / fn insert
+    //@| requires old(self).wf(), old(self).matcher.cnt() < usize::MAX, forall|x: RouteRef<T>| old(self).live(x) ==> rid(*x) != rid(item.spec_route(*old(self).config)),
+    //@| ensures final(self).wf(), final(self).config == old(self).config, final(self).matcher.cnt() == old(self).matcher.cnt() + 1, exists|n: RouteRef<T>| *n == item.spec_route(*old(self).config) && #[trigger] live_plus(*old(self), *final(self), n),
+    //@|     final(self).routes@.len() == old(self).routes@.len() + 1,
+    //@| outline `self.config.as_ref()` => `outl_arc_config(&self.config)`
+
+    // a change set: delete `removed` and the ids of `updated`, then insert the updated and the added rules. "ids consistent" (statement):
+    // the ids of updated ++ added are pairwise distinct, and an added id is not live unless it is also removed.
+    //@@ fn src/router/mod.rs :: impl <T>Router<T> where T: IntoRoute<T>, / fn apply_change_set
+    //@| requires old(self).wf(), old(self).matcher.cnt() + updated@.len() + added@.len() < usize::MAX,
+    //@|     forall|i: int, j: int| 0 <= i < j < updated@.len() + added@.len() ==> rid(#[trigger] cs_routes(updated@, added@, *old(self).config)[i]) != rid(#[trigger] cs_routes(updated@, added@, *old(self).config)[j]),
+    //@|     forall|i: int, x: RouteRef<T>| 0 <= i < added@.len() && #[trigger] old(self).live(x) && rid(*x) == rid(#[trigger] added@[i].spec_route(*old(self).config)) ==> ids_has(removed@, rid(*x)),
+    //@| ensures final(self).wf(), final(self).config == old(self).config,
+    //@|     // exactly: the survivors (same Arcs), plus one live rule per updated / added item carrying exactly the converted route
+    //@|     forall|y: RouteRef<T>| survives(*old(self), removed@, updated@, y) ==> #[trigger] final(self).live(y),
+    //@|     forall|y: RouteRef<T>| #[trigger] final(self).live(y) ==> survives(*old(self), removed@, updated@, y) || exists|i: int| 0 <= i < updated@.len() + added@.len() && *y == #[trigger] cs_routes(updated@, added@, *old(self).config)[i],
+    //@|     forall|i: int| 0 <= i < updated@.len() + added@.len() ==> exists|y: RouteRef<T>| final(self).live(y) && *y == #[trigger] cs_routes(updated@, added@, *old(self).config)[i],
+    //@| outline `updated .into_iter() .map(|item| item.into_route(self.config.as_ref())) .collect::<Vec<Route<T>>>()` => `outl_into_routes(updated, outl_arc_config(&self.config))`
+    //@| outline `removed.extend(updated_route.iter().map(|item| item.id().to_string()));` => `outl_extend_ids(&mut removed, &updated_route);`
+    //@| attr #[verifier::loop_isolation(false)]
+    //@| entry broadcast use group_hash_axioms; broadcast use axiom_string_key_model;
+    //@|     let ghost cfg = cfg_of(self.config); let ghost uv = routes_of(updated@, cfg); let ghost av = routes_of(added@, cfg); let ghost all = cs_routes(updated@, added@, cfg); let ghost rm0 = removed@; let ghost upd0 = updated@; let ghost add0 = added@; let ghost c0 = self.config;
+    //@|     let ghost mut ins: Seq<RouteRef<T>> = Seq::empty();
+    //@|     proof { axiom_string_ext(); assert(all =~= uv + av); }
+    //@| after `self.batch_remove(&removed);`: let ghost r1 = *self;
+    //@|     proof {
+    //@|         assert forall|y: RouteRef<T>| #![trigger r1.live(y)] r1.live(y) <==> survives(*old(self), rm0, upd0, y) by {
+    //@|             let id = rid(*y);
+    //@|             if ids_has(removed@, id) { let k = choose|k: String| k@ == id && removed@.contains(k); if rm0.contains(k) { assert(ids_has(rm0, id)); } }
+    //@|             if ids_has(rm0, id) { let k = choose|k: String| k@ == id && rm0.contains(k); assert(removed@.contains(k)); }
+    //@|             if in_ids(uv, id) { axiom_string_exists(id); let k = choose|k: String| k@ == id; assert(removed@.contains(k)); assert(ids_has(removed@, id)); }
+    //@|         }
+    //@|     }
+    //@| forlabel 0: it
+    //@| loop 0: invariant iter_ok(it.history@, it.index@, it.snapshot@.remaining(), uv), self.wf(), self.config == old(self).config, self.matcher.cnt() == r1.matcher.cnt() + it.index@,
+    //@|     ins.len() == it.index@, forall|i: int| 0 <= i < ins.len() ==> *#[trigger] ins[i] == all[i],
+    //@|     forall|y: RouteRef<T>| #![trigger self.live(y)] self.live(y) <==> r1.live(y) || ins.contains(y),
+    //@| loophead 0: let ghost s0 = *self; let ghost k = it.index@ as int; let ghost ins0 = ins;
+    //@|     proof { assert(item == uv[k]); assert(all[k] == uv[k]);
+    //@|         assert forall|x: RouteRef<T>| self.live(x) implies rid(*x) != rid(item) by {
+    //@|             if r1.live(x) { if rid(*x) == rid(item) { assert(in_ids(uv, rid(*x))); assert(cs_gone(rm0, upd0, cfg, rid(*x))); } }
+    //@|             else { let i = choose|i: int| 0 <= i < ins.len() && ins[i] == x; assert(*x == all[i]); }
+    //@|         } }
+    //@| looptail 0: proof {
+    //@|     let n = choose|n: RouteRef<T>| *n == uv[k] && #[trigger] live_plus(s0, *self, n);
+    //@|     ins = ins.push(n);
+    //@|     assert forall|y: RouteRef<T>| #![trigger self.live(y)] self.live(y) <==> r1.live(y) || ins.contains(y) by {
+    //@|         assert(self.live(y) <==> s0.live(y) || y == n);
+    //@|         assert(s0.live(y) <==> r1.live(y) || ins0.contains(y));
+    //@|         if ins.contains(y) { let i = choose|i: int| 0 <= i < ins.len() && ins[i] == y; if i < k { assert(ins0[i] == y); assert(ins0.contains(y)); } }
+    //@|         if ins0.contains(y) { let i = choose|i: int| 0 <= i < ins0.len() && ins0[i] == y; assert(ins[i] == y); }
+    //@|         assert(ins[k] == n);
+    //@|     }
+    //@| }
+    //@| forlabel 1: it2
+    //@| loopbefore 1: let ghost ul = uv.len() as int;
+    //@| loop 1: invariant iter_ok(it2.history@, it2.index@, it2.snapshot@.remaining(), added@), self.wf(), self.config == old(self).config, self.matcher.cnt() == r1.matcher.cnt() + ul + it2.index@, ul == uv.len(),
+    //@|     ins.len() == ul + it2.index@, forall|i: int| 0 <= i < ins.len() ==> *#[trigger] ins[i] == all[i],
+    //@|     forall|y: RouteRef<T>| #![trigger self.live(y)] self.live(y) <==> r1.live(y) || ins.contains(y),
+    //@| loophead 1: let ghost s0 = *self; let ghost k = it2.index@ as int; let ghost ins0 = ins;
+    //@|     proof { assert(item == added@[k]); assert(all[ul + k] == av[k]); assert(av[k] == item.spec_route(cfg));
+    //@|         assert forall|x: RouteRef<T>| self.live(x) implies rid(*x) != rid(item.spec_route(cfg)) by {
+    //@|             if r1.live(x) { if rid(*x) == rid(item.spec_route(cfg)) { assert(old(self).live(x)); assert(ids_has(rm0, rid(*x))); assert(cs_gone(rm0, upd0, cfg, rid(*x))); } }
+    //@|             else { let i = choose|i: int| 0 <= i < ins.len() && ins[i] == x; assert(*x == all[i]); }
+    //@|         } }
+    //@| looptail 1: proof {
+    //@|     let n = choose|n: RouteRef<T>| *n == av[k] && #[trigger] live_plus(s0, *self, n);
+    //@|     ins = ins.push(n);
+    //@|     let kk = ul + k;
+    //@|     assert forall|y: RouteRef<T>| #![trigger self.live(y)] self.live(y) <==> r1.live(y) || ins.contains(y) by {
+    //@|         assert(self.live(y) <==> s0.live(y) || y == n);
+    //@|         assert(s0.live(y) <==> r1.live(y) || ins0.contains(y));
+    //@|         if ins.contains(y) { let i = choose|i: int| 0 <= i < ins.len() && ins[i] == y; if i < kk { assert(ins0[i] == y); assert(ins0.contains(y)); } }
+    //@|         if ins0.contains(y) { let i = choose|i: int| 0 <= i < ins0.len() && ins0[i] == y; assert(ins[i] == y); }
+    //@|         assert(ins[kk] == n);
+    //@|     }
+    //@| }
+    //@| exit proof {
+    //@|     assert forall|y: RouteRef<T>| #[trigger] self.live(y) implies survives(*old(self), rm0, upd0, y) || exists|i: int| 0 <= i < updated@.len() + added@.len() && *y == #[trigger] all[i] by {
+    //@|         if !r1.live(y) { let i = choose|i: int| 0 <= i < ins.len() && ins[i] == y; assert(*y == all[i]); }
+    //@|     }
+    //@|     assert(ins.len() == upd0.len() + add0.len()); assert(all == cs_routes(upd0, add0, *c0));
+    //@|     assert forall|i: int| 0 <= i < upd0.len() + add0.len() implies exists|y: RouteRef<T>| self.live(y) && *y == #[trigger] cs_routes(upd0, add0, *c0)[i] by { let y = ins[i]; assert(ins.contains(y)); assert(self.live(y) && *y == all[i]); }
+    //@|     assert forall|i: int| 0 <= i < updated@.len() + added@.len() implies exists|y: RouteRef<T>| self.live(y) && *y == #[trigger] all[i] by { let y = ins[i]; assert(ins.contains(y)); assert(self.live(y) && *y == all[i]); }
+    //@| }
 }
 //@@ unrename SchemeMatcher
 
